@@ -16,6 +16,7 @@ TRACE_CFG = """CONSTANTS
   EnvAnywhere = TRUE
   Creators = {"ot"}
   Callers = {"ld"}
+  AllowBlock = FALSE
   TraceFile = "%s"
 SPECIFICATION TSpec
 INVARIANT NotAccepted
@@ -100,7 +101,7 @@ def check(ctx, replay=None):
                          name="Loader_5t", timeout=3000))
     for r in ctx.tlc_many(jobs, parallel=1):
         if r["violated"]:
-            ctx.note("TLC: %s violated in %s (model level)" % (r["violated"], r["name"]))
+            raise vlib.Machinery("TLC: %s violated in %s: the specification of the unchanged design does not satisfy its own invariant" % (r["violated"], r["name"]))
 
     # 2. the flag word reaches the kernel unmodified (hook H2 capture + independent strace capture)
     patterns = [0, 1, 2, 3] + ([1 << 15, 0x8001, 0xFFFFFFFF, 4, 1 << 5, 0x12345678 & ~0x8] if th else [1 << 15, 0x8003, 0xFFFFFFF7])
@@ -122,6 +123,8 @@ def check(ctx, replay=None):
     work = [{"n": n, "flags": fl, "seed": ctx.seed * 100 + k * 7 + n, "spawns": 3} for n in ns for fl in (0, 1, 2, 3) for k in range(reps)]
     # a thread with a divergent private filter: the kernel refuses the thread-sync; nil is only admissible with every thread filtered
     work += [{"n": n, "flags": fl, "seed": ctx.seed + n, "spawns": 2, "divergent": True} for n in (2, 8) for fl in (1, 3, 0, 2)]
+    # the loading thread sits under an enclosing filter that answers seccomp(2) with ENOSYS: an error is expected, nil only with everybody filtered
+    work += [{"n": n, "flags": fl, "seed": ctx.seed + n, "spawns": 2, "block": True} for n in (1, 4, 16) for fl in (1, 3)]
     results = lf.run_many(lambda c: (c, run_cfg(binary, c)), work, workers=6)
     rows = []
     nrec = 0
@@ -131,17 +134,17 @@ def check(ctx, replay=None):
             ctx.skip("recorder failed: " + err)
             continue
         if obs["result"] != "nil":
-            if cfg.get("divergent") and cfg["flags"] & 1:
-                ndiv += 1     # refused thread-sync reported as an error: admissible, nothing to validate
+            if (cfg.get("divergent") or cfg.get("block")) and cfg["flags"] & 1:
+                ndiv += 1     # refused thread-sync / unavailable seccomp(2) reported as an error: admissible, nothing to validate
                 continue
             ctx.violation("a valid filter with NoNewPrivs could not be loaded with flags %#x: %s" % (cfg["flags"], obs.get("error")),
                           {"config": cfg, "recording": obs, "how": "./check C10 --replay <this file>"})
             continue
-        if cfg.get("divergent") and cfg["flags"] & 1:
-            # nil although another thread carries a divergent filter: judged directly by the statement
+        if (cfg.get("divergent") or cfg.get("block")) and cfg["flags"] & 1:
+            # nil although another thread carries a divergent filter / seccomp(2) is unavailable: judged directly by the statement
             bad = direct_judge(obs, cfg["flags"])
             for b in bad[:2]:
-                ctx.violation("thread-sync load returned nil with a divergent thread present: " + b, {"config": cfg, "recording": obs,
+                ctx.violation("thread-sync load returned nil %s: %s" % ("with a divergent thread present" if cfg.get("divergent") else "although seccomp(2) is answered with ENOSYS", b), {"config": cfg, "recording": obs,
                               "admissible": "an error, or nil with every thread filtered", "how": "./check C10 --replay <this file>"})
             continue
         nrec += 1
